@@ -495,7 +495,7 @@ func (e *envelopeEncryption) loadIntermediateKey(ctx context.Context, meta KeyMe
 // Close frees all memory locked by the keys in the session. It should be called
 // as soon as its no longer in use.
 func (e *envelopeEncryption) Close() error {
-	if e.Policy != nil && e.Policy.SharedIntermediateKeyCache {
+	if e.Policy != nil && e.Policy.useSharedIntermediateKeyCache() {
 		return nil
 	}
 
